@@ -1,13 +1,17 @@
 fn check_write_file(outfile: &Path, output: Vec<u8>) -> anyhow::Result<()> {
-    match fs::read(outfile) {
-        Ok(buf) if buf == output => {
-            // avoid writing the file to leave the mtime intact
-            // for tools which might use it to know when to
-            // rebuild.
-            info!("Skipping writing to {outfile:?} no changes");
-            return Ok(());
+    // Only a regular file has earlier contents to compare with; reading a pipe or a
+    // device here (`--output-file /dev/stdout`) would wait for data nobody will write.
+    if outfile.is_file() {
+        match fs::read(outfile) {
+            Ok(buf) if buf == output => {
+                // avoid writing the file to leave the mtime intact
+                // for tools which might use it to know when to
+                // rebuild.
+                info!("Skipping writing to {outfile:?} no changes");
+                return Ok(());
+            }
+            _ => {}
         }
-        _ => {}
     }
 
     if !output.is_empty() {
